@@ -131,11 +131,6 @@ def imgOf (P : Params) (c : Cell) : Option Nat :=
   | .gly g => some (P.raster c.face g)
   | .chr _ => none
 
-/-- auxiliary (used in the proofs): the shadow rule when images are ignored -/
-def shadowedRaw (P : Params) (s : Surface) (r : Nat) : Nat → Bool
-  | 0 => false
-  | c + 1 => isWide P (s r c) && !shadowedRaw P s r c
-
 /-- the area of the image cell at `q` contains `p` -/
 def covers (P : Params) (s : Surface) (q p : Nat × Nat) : Bool :=
   match imgOf P (s q.1 q.2) with
@@ -176,9 +171,11 @@ def display (P : Params) (H W : Nat) (s : Surface) : Screen :=
 
 /-! ## domain -/
 
-/-- Domain of the proved theorem: printable narrow / wide characters, wide characters fit, every image
-area lies inside the terminal, image areas are pairwise disjoint, and no wide character lies in an
-image area or has its right half in one. -/
+/-- Domain of the proved theorem: printable narrow / wide characters, wide ones fit, every image
+area lies inside the terminal, image areas are pairwise disjoint, and no wide character is cut by the
+edge of an image area (its two cells are both inside the area or both outside; in particular an image
+cell never sits in the shadow of a wide character).  Characters hidden under an image are arbitrary
+otherwise. -/
 def WellPlaced (P : Params) (H W : Nat) (s : Surface) : Prop :=
   (∀ r c ch, r < H → c < W → (s r c).kind = .chr ch → P.width ch = 1 ∨ P.width ch = 2) ∧
   (∀ r c, r < H → c < W → isWide P (s r c) = true → c + 1 < W) ∧
@@ -187,7 +184,7 @@ def WellPlaced (P : Params) (H W : Nat) (s : Surface) : Prop :=
   (∀ q q' p, q.1 < H → q.2 < W → q'.1 < H → q'.2 < W →
     covers P s q p = true → covers P s q' p = true → q = q') ∧
   (∀ q r c, q.1 < H → q.2 < W → r < H → c < W → isWide P (s r c) = true →
-    covers P s q (r, c) = false ∧ covers P s q (r, c + 1) = false)
+    covers P s q (r, c) = covers P s q (r, c + 1))
 
 /-- executable form of `WellPlaced` (used by the driver and, through `wellPlacedB_sound`, to exhibit members of the domain by `decide`) -/
 def wellPlacedB (P : Params) (H W : Nat) (s : Surface) : Bool :=
@@ -202,6 +199,6 @@ def wellPlacedB (P : Params) (H W : Nat) (s : Surface) : Bool :=
   ps.all (fun q => ps.all fun q' => q == q' ||
     ps.all fun p => !(covers P s q p && covers P s q' p)) &&
   ps.all (fun q => ps.all fun p => !isWide P (s p.1 p.2) ||
-    (!covers P s q p && !covers P s q (p.1, p.2 + 1)))
+    (covers P s q p == covers P s q (p.1, p.2 + 1)))
 
 end SurfModel.Screen
